@@ -32,6 +32,7 @@ type raceHandler struct {
 	release    chan struct{}
 	opens      atomic.Int32
 	closes     atomic.Int32
+	shutdowns  atomic.Int32
 	shutdownCb func()
 }
 
@@ -46,7 +47,7 @@ func (h *raceHandler) OnTraffic(c gnet.Conn) gnet.Action {
 	return gnet.None
 }
 func (h *raceHandler) OnShutdown(gnet.Engine) {
-	if h.shutdownCb != nil {
+	if h.shutdowns.Add(1) == 1 && h.shutdownCb != nil {
 		h.shutdownCb()
 	}
 }
@@ -299,6 +300,9 @@ func runStopRace(w *tr.Writer, seed uint64, idx int) {
 		}
 	case <-time.After(time.Second):
 		w.Fail("engine-start", "dial-on-stopped-client-blocks", "Client.Dial on a stopped client had not returned after 1 s")
+	}
+	if n := h.shutdowns.Load(); n != 1 {
+		w.Fail("lifecycle", "onshutdown-count", fmt.Sprintf("OnShutdown ran %d times for one client", n))
 	}
 	for _, f := range later {
 		if _, e := f.Stat(); e != nil {
